@@ -49,12 +49,21 @@ def generate(rng, tier):
     for k, v in g.items():
         out[k] = v
         out[k + "-viewbox"] = ["DVB " + c.split(" ", 1)[1] for c in v[::4]]
+        if k in ("truncations", "corruptions", "random-after-magic"):
+            out[k + "-into-renderer"] = ["DREN 0 0 %d %d " % (1 + i % 40, 1 + i % 33) + c.split(" ", 1)[1] for i, c in enumerate(v[2::8])]
+            out[k + "-into-encoder"] = ["TR 1 %d " % (i % 2) + c.split(" ", 1)[1] for i, c in enumerate(v[3::8])]
         out[k + "-disassemble"] = ["DIS " + c.split(" ", 1)[1] for c in (v if len(v) < 6000 else v[1::4])]
     return out
 
 
 def project(case, out):
     # outcome class and delivered calls; the error *kind* belongs to C03/C13
+    if case.startswith("DREN"):
+        # outcome class and the shape of the rasteriser activity (numbers belong to C05/C06)
+        t = out.split()
+        return " ".join([t[0][:3]] + [x for x in t[1:] if not (len(x) == 8 and all(ch in "0123456789abcdef" for ch in x))]) if t else out
+    if case.startswith("TR"):
+        return " || ".join(p.split(" | ")[0][:3] for p in out.split(" || "))
     if case.startswith("DIS"):
         return out.split(" ", 1)[0][:3]   # outcome class only; the listing belongs to C11
     if out.startswith("ERR"):
@@ -72,6 +81,12 @@ def always_check(case, io):
         return True, "decoding panicked / crashed / hung: " + io[:200]
     if io.startswith("NOT-A-DecodeError") or io.startswith("INPUT-MODIFIED"):
         return True, io[:200]
+    if case.startswith("DREN"):
+        h = case.split()[5]
+        nbytes = 0 if h == "-" else len(h) // 2
+        nseg = sum(1 for x in io.split() if x in ("m", "l", "q", "c", "z", "d") or x.startswith("r"))
+        if nseg > 4 * nbytes + 4:
+            return True, "rasteriser activity (%d calls) is not linear in the input length (%d bytes)" % (nseg, nbytes)
     if case.startswith("DEC"):
         o, _, calls = io.partition(" | ")
         t = calls.split()
